@@ -351,6 +351,7 @@ def body_fact(key, out):
         got = None
     ok = got is not None and got in expected_bodies().get(key, [])
     name = fname.split(".")[0] + "_" + (cls.lower() + "_" if cls else "") + fn.lstrip("_") + "_ok"
+    name = {"connection_connection_start_ok": "connection_connection_start_ok" if fn == "start" else "connection_connection_inner_start_ok"}.get(name, name)
     if not ok:
         shown = (got or "<missing>").replace("*)", "* )").replace('"', "''")
         out.append(f"(* {key} differs from the transcribed shape:\n{shown}\n*)")
@@ -427,7 +428,52 @@ def facts_packets():
     return out
 
 
-SECTIONS = [("stream", facts_stream), ("control", facts_control), ("packets", facts_packets)]
+# ----------------------------------------------------------------------------- connection life cycle
+CONN_BODIES = [
+    "connection.py:Connection:start", "connection.py:Connection:_start", "connection.py:Connection:kill",
+    "connection.py:Connection:connection_phase", "connection.py:Connection:authenticate",
+    "connection.py:Connection:handle_change_user", "connection.py:Connection:command_phase",
+    "connection.py:Connection:handle_ping", "connection.py:Connection:handle_reset_connection", "connection.py:Connection:handle_debug",
+    "connection.py:Connection:handle_init_db", "connection.py:Connection:handle_field_list", "connection.py:Connection:handle_query",
+    "connection.py:Connection:handle_stmt_prepare", "connection.py:Connection:handle_stmt_send_long_data",
+    "connection.py:Connection:handle_stmt_execute", "connection.py:Connection:handle_stmt_fetch",
+    "connection.py:Connection:handle_stmt_reset", "connection.py:Connection:handle_stmt_close", "connection.py:Connection:get_stmt",
+    "connection.py:Connection:query", "connection.py:Connection:ok_or_eof", "connection.py:Connection:text_resultset",
+    "connection.py:Connection:com_stmt_prepare_response", "connection.py:Connection:deprecate_eof",
+    "stream.py:MysqlStream:write", "stream.py:MysqlStream:drain", "stream.py:MysqlStream:reset_seq",
+    "utils.py::cooperative_iterate", "utils.py::aiterate",
+    "server.py:MysqlServer:_client_connected_cb",
+]
+
+
+def facts_conn():
+    out = []
+    for key in CONN_BODIES:
+        body_fact(key, out)
+    ut = parse("utils.py")
+    ci = find_func(ut, "cooperative_iterate")
+    names = [a.arg for a in ci.args.args]
+    if "batch_size" not in names or not ci.args.defaults:
+        raise Shape("cooperative_iterate: batch_size default not found")
+    out.append(f"Definition utils_batch_size : N := {const_int(ci.args.defaults[-1])}.")
+    st = parse("stream.py")
+    init = find_func(find_class(st, "MysqlStream"), "__init__")
+    out.append(f"Definition conn_buffer_size : N := {const_int(init.args.defaults[-1])}.")
+    cn = parse("connection.py")
+    cls = find_class(cn, "Connection")
+    env = class_consts(cls)
+    out.append(f"Definition conn_max_stmt_id : N := {env['_MAX_PREPARED_STMT_ID']}.")
+    er = class_consts(find_class(parse("errors.py"), "ErrorCode"))
+    for k in ["HANDSHAKE_ERROR", "UNKNOWN_COM_ERROR", "UNKNOWN_ERROR", "UNKNOWN_PROCEDURE", "ACCESS_DENIED_ERROR",
+              "USER_DOES_NOT_EXIST", "SESSION_WAS_KILLED", "MALFORMED_PACKET"]:
+        out.append(f"Definition err_{k.lower()} : N := {er[k]}.")
+    ss = class_consts(find_class(parse("types.py"), "ServerStatus"))
+    out.append(f"Definition status_cursor_exists : N := {ss['SERVER_STATUS_CURSOR_EXISTS']}.")
+    out.append(f"Definition status_last_row_sent : N := {ss['SERVER_STATUS_LAST_ROW_SENT']}.")
+    return out
+
+
+SECTIONS = [("stream", facts_stream), ("control", facts_control), ("packets", facts_packets), ("conn", facts_conn)]
 
 
 IMPORTS = {
